@@ -264,7 +264,7 @@ def grid_enum_lines(names=None, full=True):
                                     else:
                                         fields = [Field('x', 'i32', []), Field('y', 'i16', [Attr('map', 'k')])]
                                     v = Variant('V', vshape, fields, vattrs)
-                                    attrs = [trait_attr(tname, 'A', '', 'Er', '_ { dflt() }' if dc else '')]
+                                    attrs = [trait_attr(tname, 'A', '', 'Er', '_ => dflt()' if dc else '')]
                                     if tg:
                                         attrs.append(Attr('ghosts', tg))
                                     it = Item('enum', 'E', 'named', '', attrs, [v, Variant('U', 'unit')],
@@ -361,7 +361,7 @@ def rand_params(rng, kind, enum=False):
     elif r < 0.2:
         tail = 'return %s' % rng.choice(['mk(@)', '{ @.conv() }', 'X { a: ~x }'])
     elif r < 0.3 and enum:
-        tail = '_ %s' % rng.choice(['{ panic!() }', '{ Self::dflt() }', '=> todo!()'])
+        tail = '_ => %s' % rng.choice(['panic!()', 'Self::dflt()', 'todo!()'])
     if tail:
         ps.append(tail)
     return ', '.join(ps)
@@ -574,7 +574,10 @@ def respell(item, rng, mode):
                 new.append(a)
                 i += 1
                 continue
-            if mode == 'each' or (mode == 'mix' and rng.random() < 0.5):
+            if mode == 'mix' and rng.random() < 0.4:
+                new.append(a)                      # this one stays bare: a true mixture of the spellings
+                i += 1
+            elif mode == 'each' or (mode == 'mix' and rng.random() < 0.5):
                 new.append(a.clone(o2o=True))
                 i += 1
             elif mode == 'group' or mode == 'mix':
@@ -1036,7 +1039,7 @@ def c10_cases(rng, n):
             it = Item('enum', 'E', 'named', '', [trait_attr('from', 'A')], [Variant('V', 'unit', [], [Attr('from', 'W, ' + body)]), Variant('U')])
             exp = {'from': tt_flat(tt, V, ['E', ':', ':', 'V']), 'into': None}
         elif site == 'default_case':
-            tr2 = [trait_attr('from', 'i32', '', 'Er', '_ ' + body)]
+            tr2 = [trait_attr('from', 'i32', '', 'Er', '_ => ' + body)]
             it = Item('enum', 'E', 'named', '', tr2, [Variant('V', 'unit', [], [Attr('literal', '1')]), Variant('U', 'unit', [], [Attr('literal', '2')])])
             exp = {'from': tt_flat(tt, V, []), 'into': None}
         else:   # nested_parent
@@ -1358,7 +1361,7 @@ class TSpec:
         if self.attribute:
             ps.append('attribute(%s)' % self.attribute)
         if self.tail:
-            kw = {'update': '..', 'quick_return': 'return ', 'default_case': '_ '}[self.tail[0]]
+            kw = {'update': '..', 'quick_return': 'return ', 'default_case': '_ => '}[self.tail[0]]
             ps.append(kw + self.tail[1])
         return trait_attr(self.name, self.cp, '', 'Er', ', '.join(ps))
 
@@ -1427,7 +1430,7 @@ def c14_trait_cases(rng, n):
             elif q < 0.4:
                 tail = ('quick_return', rng.choice(['mk(@)', '{ @.conv() }']))
             elif q < 0.55 and enum:
-                tail = ('default_case', rng.choice(['{ panic!() }', '{ dflt() }']))
+                tail = ('default_case', rng.choice(['panic!()', 'dflt()']))
             specs.append(TSpec(nm, cp, vars_=('k%d: { %d }' % (j, j)) if rng.random() < 0.4 else None, tail=tail, repeat=rep,
                                skip=(rep is None and rng.random() < 0.2), stop=rng.random() < 0.2,
                                attribute=('inline' if rng.random() < 0.15 else None)))
@@ -1889,7 +1892,10 @@ def c01_cases(rng, n, index_rename_on_tuple_dest=False):
                         entries = ['gx: { 7 }', 'gx: { @.q }, gy: { 8 }']
                     else:
                         entries = ['%d: { 7 }' % (nf + 0)]
-                    g = Attr(rng.choice(['ghosts', 'ghosts_owned', 'ghosts_ref']), rng.choice(entries), ded=cp if (rng.random() < 0.6 and not cp.startswith('(')) else None)
+                    same_shape = len(set(dest_named.values())) == 1 and len(set(hints.values())) == 1
+                    g = Attr(rng.choice(['ghosts', 'ghosts_owned', 'ghosts_ref']), rng.choice(entries), ded=cp if ((rng.random() < 0.6 or not same_shape) and not cp.startswith('(')) else None)
+                    if g.ded is None and not same_shape:
+                        continue
                     gh.append(g)
         attrs += gh
         rng.shuffle(attrs)
@@ -1964,7 +1970,7 @@ def c07_cases(rng, n):
             out.append(Item('struct', 'S', shape, '', attrs, fields, {'gen': 'c07_struct'}))
         else:
             names = rng.choice([['map', 'try_map'], ['from_owned', 'from_ref', 'try_from_owned', 'try_from_ref'], ['owned_into', 'ref_into', 'owned_try_into', 'ref_try_into']])
-            params = rng.choice(['', '', '_ { dflt() }'])
+            params = rng.choice(['', '', '_ => dflt()'])
             attrs = [trait_attr(nm, 'A', '', 'Er', params) for nm in names]
             vs = []
             for j in range(rng.randrange(1, 5)):
@@ -2048,8 +2054,8 @@ def c08_cases(rng, n):
                 ps.append('%s(%s)' % (a, spec[a]))
         rng.shuffle(ps)
         if spec['tail']:
-            kw = {'update': '..', 'return': 'return ', 'default': '_ '}[spec['tail'][0]]
-            braced = rng.random() < 0.5
+            kw = {'update': '..', 'return': 'return ', 'default': '_ => '}[spec['tail'][0]]
+            braced = rng.random() < 0.5 and spec['tail'][0] != 'default'
             ps.append(kw + (('{ %s }' % spec['tail'][1]) if braced else spec['tail'][1]))
         attrs = [trait_attr(nm, 'A', '', 'Er', ', '.join(ps))]
         if rng.random() < 0.3:
@@ -2092,7 +2098,7 @@ def c02_cases(rng, n):
                 if ks & taken:
                     continue
                 taken |= ks
-                dc = rng.choice(['', '', '_ { dflt() }'])
+                dc = rng.choice(['', '', '_ => dflt()'])
                 attrs.append(trait_attr(nm, cp, '', 'Er', dc))
         vs = []
         for j in range(rng.randrange(1, 5)):
@@ -2162,7 +2168,7 @@ def c09_cases(rng, n):
             if ks & taken:
                 continue
             taken |= ks
-            attrs.append(trait_attr(nm, cp, '', 'Er', '_ { dflt() }' if has_default else ''))
+            attrs.append(trait_attr(nm, cp, '', 'Er', '_ => dflt()' if has_default else ''))
         vs = []
         spec = []
         k = rng.randrange(1, 6)
@@ -2193,4 +2199,80 @@ def c09_cases(rng, n):
             vs.append(v)
         it = Item('enum', 'E', 'named', '', attrs, vs, {'gen': 'c09', 'spec': spec, 'default': has_default, 'cp': cp})
         out.append(it)
+    return out
+
+
+# ---------------------------------------------------------------------------------------------
+# C11: generic parameter lists x counterpart paths with lifetime / generic arguments x where clauses
+# ---------------------------------------------------------------------------------------------
+def c11_cases(rng, n):
+    out = []
+    kinds = BASIC + [try_name(b) for b in BASIC] + ['map', 'into_existing']
+    for i in range(n):
+        lts = rng.sample(['a', 'b', 'c'], rng.choice([0, 0, 1, 2]))
+        tys = []
+        for t in rng.sample(['T', 'U'], rng.choice([0, 1, 1, 2])):
+            tys.append((t, rng.choice(['', ': Clone', ': Clone + Into<u8>', ': ?Sized', " : 'static"]), rng.choice(['', '', ' = u8']) ))
+        consts = [('N', 'usize')] if rng.random() < 0.25 else []
+        # declaration order: lifetimes first (required by rustc), then types and consts in any order; defaults only trail
+        rest = [('ty', t) for t in tys] + [('const', c) for c in consts]
+        rng.shuffle(rest)
+        if any(k == 'ty' and t[2] for k, t in rest):
+            rest = [x for x in rest if not (x[0] == 'ty' and x[1][2])] + [x for x in rest if x[0] == 'ty' and x[1][2]]
+        decl = ["'%s" % l for l in lts]
+        if len(lts) == 2 and rng.random() < 0.3:
+            decl[1] = "'%s: '%s" % (lts[1], lts[0])
+        for k, t in rest:
+            if k == 'ty':
+                decl.append('%s%s%s' % (t[0], t[1], t[2]))
+            else:
+                decl.append('const %s: %s' % t)
+        generics = ('<%s>' % ', '.join(decl)) if decl else ''
+        names = ["'%s" % l for l in lts] + [t[1][0] for t in rest]
+        cps = []
+        for cpn in rng.sample(['A', 'B', 'x::C'], rng.choice([1, 1, 2])):
+            pool = ["'%s" % l for l in lts] + ["'x", "'y"]
+            args = []
+            for _ in range(rng.choice([0, 0, 1, 2, 2])):
+                args.append(rng.choice(pool))
+            if rng.random() < 0.2 and args:
+                args.append(args[0])                      # the same lifetime twice
+            targs = [t[0] for t in tys if rng.random() < 0.5] + (['u8'] if rng.random() < 0.2 else [])
+            allargs = args + targs
+            cps.append(cpn + (('<%s>' % ', '.join(allargs)) if allargs else ''))
+        attrs = []
+        for cp in cps:
+            taken = set()
+            for nm in rng.sample(kinds, rng.choice([1, 2, 3])):
+                ks = set(kinds_of(nm))
+                if ks & taken:
+                    continue
+                taken |= ks
+                attrs.append(trait_attr(nm, cp, '', 'Er'))
+        wh = {}
+        if rng.random() < 0.5:
+            wh[None] = rng.choice(['T: Copy', "T: Into<u8> + 'static, U: x::Y", 'Self: Sized'])
+            attrs.append(Attr('where_clause', wh[None]))
+        if rng.random() < 0.35:
+            cp = rng.choice(cps)
+            wh[cp] = rng.choice(['T: Default', 'U: Clone'])
+            attrs.append(Attr('where_clause', wh[cp], ded=cp))
+        rng.shuffle(attrs)
+        it = Item('struct', 'S', 'named', generics, attrs, [Field('a', 'i32'), Field('b', 'i16', [Attr('map', 'bb')])],
+                  {'gen': 'c11', 'lts': lts, 'decl': decl, 'names': names, 'where': {(oracles_norm(k) if k else None): v for k, v in wh.items()}})
+        out.append(it)
+    return out
+
+
+def oracles_norm(s):
+    return s.replace(' ', '').replace("'o2o", '').replace('::<', '<')
+
+
+def c17_enum_existing(rng, n):
+    out = []
+    for i in range(n):
+        nm = rng.choice(['into_existing', 'owned_into_existing', 'ref_into_existing', 'try_into_existing'])
+        out.append(Item('enum', 'E', 'named', '', [trait_attr(nm, 'D', '', 'Er')], [Variant('A'), Variant('B', 'tuple', [Field(None, 'i32')])], {'gen': 'c17_enum_existing'}))
+        out.append(Item('struct', 'S', 'named', '', [trait_attr(rng.choice(['owned_into', 'into', 'try_into']), 'D', '', 'Er', 'return mk(@)')],
+                        [Field('a', 'i32'), Field('p', 'P', [Attr('parent')])], {'gen': 'c17_qret_parent'}))
     return out
